@@ -1,6 +1,7 @@
 import MirProofs.Lemmas.Intervals
 import MirProofs.Lemmas.IntervalsMerge
 import MirProofs.Lemmas.IntervalsEvents
+import MirProofs.Lemmas.IntervalsRound
 /-!
   C13 — interval pre-processing preserves the annotation it re-expresses.
 
@@ -326,6 +327,47 @@ theorem i2b_b2i {bs : List Rat} (hs : SSorted bs) (hlen : 2 ≤ bs.length)
     exact List.map_congr_left (fun v hv => hex v ((mem_entriesP_pairs hlen).1 hv))
   rw [this]
   exact sorted_ext (usort_sorted _) hs (fun v => by rw [mem_usort, mem_entriesP_pairs hlen])
+
+/-- `np.round(·, 5)` moves a time by at most half a unit of the fifth decimal. -/
+theorem round5_near (x : Rat) : roundDec 5 x - x ≤ 1 / 200000 ∧ x - roundDec 5 x ≤ 1 / 200000 := by
+  have := roundDec_near 5 x
+  norm_num at this ⊢
+  exact this
+
+/-- **b2i ∘ i2b beyond 5-decimal-exact times** ("up to round5"): on ANY contiguous segmentation whose rows keep a
+    positive duration after the documented rounding, the round trip returns the segmentation with every time
+    rounded to 5 decimals (`roundRows 5`); `b2i_i2b` is the case where rounding changes nothing. -/
+theorem b2i_i2b_rounded {lo : Rat} {xs : LI L} (hc : Contig lo xs)
+    (hpos : ∀ x ∈ xs, roundDec 5 x.1 < roundDec 5 x.2.1) :
+    boundariesToIntervals (intervalsToBoundaries (ivals xs)) = .ok (ivals (roundRows 5 xs)) :=
+  b2i_i2b_roundRows hc hpos
+
+/-- … in particular whenever every row lasts longer than `1e-5` s; each returned time is within `5e-6` of the
+    original (`round5_near`). -/
+theorem b2i_i2b_rounded_of_durations {lo : Rat} {xs : LI L} (hc : Contig lo xs)
+    (hdur : ∀ x ∈ xs, 1 / 100000 < x.2.1 - x.1) :
+    boundariesToIntervals (intervalsToBoundaries (ivals xs)) = .ok (ivals (roundRows 5 xs)) :=
+  b2i_i2b_roundRows hc (fun x hx => roundDec_lt_of_gap 5 (by have := hdur x hx; norm_num at this ⊢; exact this))
+
+/-- **i2b ∘ b2i beyond 5-decimal-exact times**: on an ascending boundary list whose rounded values are still
+    strictly ascending the round trip returns the rounded boundaries. -/
+theorem i2b_b2i_rounded {bs : List Rat} (hs : SSorted bs) (hlen : 2 ≤ bs.length)
+    (hs' : SSorted (bs.map (roundDec 5))) :
+    ∃ iv, boundariesToIntervals bs = .ok iv ∧ intervalsToBoundaries iv = bs.map (roundDec 5) := by
+  refine ⟨pairs bs, b2i_sorted hs, ?_⟩
+  unfold intervalsToBoundaries
+  apply sorted_ext (usort_sorted _) hs'
+  intro v
+  rw [mem_usort, List.mem_map, List.mem_map]
+  constructor
+  · rintro ⟨a, ha, rfl⟩; exact ⟨a, (mem_entriesP_pairs hlen).1 ha, rfl⟩
+  · rintro ⟨a, ha, rfl⟩; exact ⟨a, (mem_entriesP_pairs hlen).2 ha, rfl⟩
+
+example : Contig 0 [((0 : Rat), (1000004 / 1000000 : Rat), "a"), (1000004 / 1000000, 2, "b")] ∧
+    roundDec 5 (1000004 / 1000000 : Rat) = 1 ∧
+    boundariesToIntervals (intervalsToBoundaries [((0 : Rat), (1000004 / 1000000 : Rat)), (1000004 / 1000000, 2)])
+      = .ok [(0, 1), (1, 2)] := by
+  refine ⟨⟨rfl, by norm_num, rfl, by norm_num, trivial⟩, by decide +kernel, by decide +kernel⟩
 
 /-- whatever is accepted is returned as consecutive pairs; lists whose set of distinct values neither has the
     same length nor broadcasts (a single value) are rejected with `ValueError` -/
